@@ -43,6 +43,8 @@ CONDITIONS = [
     {"name": "default-path-db+open-cursor", "backup": False, "bootstrap": True, "default_path": True, "cursor": True},
     # ... and the sandbox bootstrap page is not stored yet: the first Lua use of each worker wants to write it
     {"name": "open-cursor+no-bootstrap-page", "backup": False, "bootstrap": False, "cursor": True},
+    # the shared database lies directly in the system temporary directory (e.g. it was created by a parent Wtp() without db_path)
+    {"name": "db-in-tempdir-root", "backup": False, "bootstrap": True, "tmproot": True},
 ]
 
 
@@ -256,24 +258,31 @@ def body(db, cursor=False):
             ex = w.page_exists("Template:t", 10)
             if gen is not None:
                 list(gen)
+            # the worker's connection must be usable afterwards: not stuck inside a transaction it never asked for
+            tx = w.db_conn.in_transaction
         finally:
             w.close_db_conn()
-        return [r1, r2, ex]
+        return [r1, r2, ex, tx]
     return b
 
 
-def run_one(tmpl, prefix, n, cursor=False):
+def run_one(tmpl, prefix, n, cursor=False, tmproot=False):
     global SCHED
+    import tempfile
     d = scratch_dir("c20x")
+    old_tmp = tempfile.tempdir
     try:
         for f in os.listdir(tmpl):
             shutil.copy(os.path.join(tmpl, f), os.path.join(d, f))
         s = Sched(n, prefix)
         SCHED = s
+        if tmproot:
+            tempfile.tempdir = d      # the shared database lies directly in the temporary directory (where Wtp() puts its own)
         try:
             s.run([body(Path(d) / "t.db", cursor) for _ in range(n)])
         finally:
             SCHED = None
+            tempfile.tempdir = old_tmp
         Wtp.get_page.cache_clear()
         try:
             s.final_table = table(d)
@@ -309,7 +318,7 @@ def explore(tmpl, n, bound, acc, cond, expected, before, report):
     while stack:
         prefix = stack.pop()
         report(nexec)
-        s = run_one(tmpl, prefix, n, bool(cond.get("cursor")))
+        s = run_one(tmpl, prefix, n, bool(cond.get("cursor")), bool(cond.get("tmproot")))
         nexec += 1
         acc.case()
         case = {"condition": cond["name"], "workers": n, "schedule": list(s.choices),
@@ -361,7 +370,7 @@ def work(payload, skip, report):
     try:
         make_template(tmpl, cond)
         # what a single worker obtains, and the table it leaves
-        s1 = run_one(tmpl, [], 1, bool(cond.get("cursor")))
+        s1 = run_one(tmpl, [], 1, bool(cond.get("cursor")), bool(cond.get("tmproot")))
         expected = s1.results[0]
         if s1.errors[0] is not None or expected is None:
             acc.violation("single_worker_baseline", {"condition": cond["name"]}, s1.errors[0], "a result")
@@ -390,9 +399,9 @@ def replay(case):
     out = []
     try:
         make_template(tmpl, cond)
-        s1 = run_one(tmpl, [], 1, bool(cond.get("cursor")))
+        s1 = run_one(tmpl, [], 1, bool(cond.get("cursor")), bool(cond.get("tmproot")))
         expected = s1.results[0]
-        s = run_one(tmpl, case["schedule"], case["workers"], bool(cond.get("cursor")))
+        s = run_one(tmpl, case["schedule"], case["workers"], bool(cond.get("cursor")), bool(cond.get("tmproot")))
         if s.deadlock:
             out.append({"oracle": "no_deadlock", "observed": "deadlock", "expected": "progress"})
         for i in range(case["workers"]):
